@@ -169,6 +169,7 @@ class World:
         self.procs = []
         self.kills = []
         self.exec_log = []       # (call, index, pid)
+        self.stats = {}
 
 
 WORLD = None
@@ -188,6 +189,14 @@ class SimProcess:
     def start(self):
         from joblib.externals.loky import process_executor as pe
         s = ds.S
+        # a real start pickles the arguments for the child: a queue whose connection is already closed
+        # (the manager thread tore the executor down meanwhile) cannot be sent
+        for a in self.args or ():
+            for nm in ("_reader", "_writer"):
+                c = getattr(a, nm, None)
+                if isinstance(c, Conn) and c.closed:
+                    WORLD.stats["spawn_with_closed_queue"] = WORLD.stats.get("spawn_with_closed_queue", 0) + 1
+                    raise OSError("handle is closed")
         self.alive = True; self.started = True
         g = dict(pe.__dict__)
         shim_os = types.SimpleNamespace(environ=os.environ, getpid=lambda: self.pid)
